@@ -937,7 +937,7 @@ pub fn run_c13(args: &Args, model: &mut Model) -> Report {
         c13_check(&c, model, &mut rep, "corpus");
         registry_clear();
     }
-    let n = if args.thorough { 5000 } else { 220 };
+    let n = if args.thorough { 10000 } else { 220 };
     for i in 0..n {
         let mut p = Prng::for_case(args.seed, i);
         let c = c13_gen(&mut p, args.thorough);
@@ -2269,7 +2269,7 @@ pub fn run_c15(args: &Args, model: &mut Model) -> Report {
     for (i, w) in c15_corpus().iter().enumerate() {
         c15_run_world(w, model, &mut rep, &format!("corpus {}", i), &mut ids_seen);
     }
-    let nworlds = if args.thorough { 450 } else { 60 };
+    let nworlds = if args.thorough { 1200 } else { 60 };
     for i in 0..nworlds {
         let mut p = Prng::for_case(args.seed, i);
         let w = gen_world(&mut p);
